@@ -134,6 +134,15 @@ func getDirection(r, g Vector, H Matrix, hessianModification HessianModification
   return nil
 }
 
+// panic on unknown Hessian modifications before the first evaluation
+func checkHessianModification(hessianModification HessianModification) {
+  switch hessianModification.Value {
+  case "Eigenvalue", "LDL", "None":
+  default:
+    panic(fmt.Sprintf("invalid hessian modification: %s", hessianModification.Value))
+  }
+}
+
 /* Newton's method for root finding
  * -------------------------------------------------------------------------- */
 
@@ -148,6 +157,7 @@ func newton_root(f objective_root, x ConstVector,
   hessianModification HessianModification,
   inSitu *InSitu,
   options []interface{}) (Vector, error) {
+  checkHessianModification(hessianModification)
   x1 := AsDenseFloat64Vector(x)
   x2 := AsDenseFloat64Vector(x)
   // variables for lineSearch
@@ -236,6 +246,7 @@ func newton_min(
   hessianModification HessianModification,
   inSitu *InSitu,
   options []interface{}) (Vector, error) {
+  checkHessianModification(hessianModification)
   x1 := AsDenseFloat64Vector(x)
   x2 := AsDenseFloat64Vector(x)
   // variables for lineSearch
